@@ -27,3 +27,10 @@ Theorem p_far_field : forall a r, 0 < a -> 0 < r ->
   Rabs (r * cg_p_main erf a r - 1) <= (4 / PI + 2 * sqrt a * r) * exp (- (a * r ^ 2)).
 Proof. exact p_far_lemma. Qed.
 Print Assumptions p_far_field.
+
+(* unnormalised p type: total charge 3/2 pi^(3/2) / a^(5/2) *)
+Theorem p_far_field_unnormalised : forall a r, 0 < a -> 0 < r ->
+  let Q := 3 / 2 * Rpower PI (3 / 2) / Rpower a (5 / 2) in
+  Rabs (r * cg_p_main_unnorm erf a r - Q) <= Q * ((4 / PI + 2 * sqrt a * r) * exp (- (a * r ^ 2))).
+Proof. exact p_far_unnorm_lemma. Qed.
+Print Assumptions p_far_field_unnormalised.
